@@ -271,6 +271,9 @@ def build_chain(node, scn, S=None, levels=None, changes=None):
         node.bake()
         if what in ('ballots', 'upvotes', 'proposals'):
             served[lvl] = copy.deepcopy(node.tracked.get('ballots' if what == 'ballots' else 'proposals'))
+        if what == 'info':
+            # the whole object the node serves at this level (the caller's equality looks at the counter only)
+            S.setdefault('full', {})[lvl] = {'balance': str(node.tracked.get('bal:' + PKH)), 'counter': str(S['ctr'])} if ('bal:' + PKH) in node.tracked else None
         if what in ('counter', 'info'):
             hist[lvl] = str(S['ctr'])
         elif what == 'kt':
@@ -478,7 +481,13 @@ def execute(scn, want_log=False):
         violate('raises', f'raises:{type(err).__name__}', error=str(err)[:300])
     elif kind in ('changes', 'walk'):
         got = [(l, v['counter'] if what == 'info' else v) for l, v in result]
-        if got != exp_changes:
+        stale = None
+        if what == 'info' and got == exp_changes:
+            # "with the new value": the object reported for a level is the object the node holds at that level, whatever the equality used
+            stale = next(((l, v, S['full'][l]) for l, v in result if S.get('full', {}).get(l) is not None and v != S['full'][l]), None)
+        if stale is not None:
+            violate('value', 'wrong-value:not-the-value-at-the-change-level', level=stale[0], got=stale[1], expected=stale[2])
+        elif got != exp_changes:
             gl = [l for l, _ in got]
             el = [l for l, _ in exp_changes]
             if sorted(gl) == sorted(el) and gl != el:
